@@ -123,3 +123,77 @@ package mqtt
 //@        asError(asRetryErr(result).errorInterface).Err == evRet[error]("context.Context.Err", 0, 0)
 //@   ensures[C11,C19] closed_cause: evCount("select") == 1 && evRet[int]("select", 0, 0) == 0 ==>
 //@        isRetryErr(result) && asError(asRetryErr(result).errorInterface).Err == ErrClosedTransport
+
+// ---- subscribe / unsubscribe (C01, C07, C11, C15, C19) ----
+
+//@ func subscribeImpl
+//@   mode int
+//@   props C01 C07 C11 C15 C19
+//@   requires c != nil && ctx != nil && c.Transport != nil
+//@   assigns c.idLast
+//@   let sig0 *signaller = c.sig
+//@   let n0 int = len(subs)
+//@   loop 1 invariant 0 <= i && i <= len(subAck.Codes) && forall(0, i, func(j int) bool { return subs[j].QoS == QoS(subAck.Codes[j]) })
+//@   ensures[C15] one_id: evCount("(*BaseClient).newID") == 1
+//@   ensures[C07,C15] registered: sig0 != nil ==> evCount("mapstore:map<uint16,chan *pktSubAck>") == 1 &&
+//@        evArg[uint16]("mapstore:map<uint16,chan *pktSubAck>", 0, 1) == evRet[uint16]("(*BaseClient).newID", 0, 0) &&
+//@        fresh(evArg[chan *pktSubAck]("mapstore:map<uint16,chan *pktSubAck>", 0, 2))
+//@   ensures[C07] order: evCount("(*BaseClient).write") == 1 ==> evIndex("mapstore:map<uint16,chan *pktSubAck>", 0) < evIndex("(*BaseClient).write", 0)
+//@   ensures[C07,C11] nil_only_acked: result1 == nil ==> evCount("select") == 1 && evRet[int]("select", 0, 0) == 2 &&
+//@        evArg[chan *pktSubAck]("select", 0, 2) == evArg[chan *pktSubAck]("mapstore:map<uint16,chan *pktSubAck>", 0, 2) &&
+//@        evIndex("(*BaseClient).write", 0) < evIndex("select", 0)
+//@   ensures[C07] count_mismatch: evCount("select") == 1 && evRet[int]("select", 0, 0) == 2 && len(evRet[*pktSubAck]("select", 0, 3).Codes) != n0 ==>
+//@        result1 != nil && asError(result1) != nil && asError(result1).Err == ErrInvalidSubAck && evCount("Transport.Close") == 1
+//@   ensures[C07] granted: result1 == nil ==> len(result0) == n0 && len(evRet[*pktSubAck]("select", 0, 3).Codes) == n0 &&
+//@        forall(0, n0, func(j int) bool { return result0[j].QoS == QoS(evRet[*pktSubAck]("select", 0, 3).Codes[j]) }) && sameSlice(result0, subs)
+//@   ensures[C01,C19] interrupted: sig0 != nil && result1 != nil && result1 != io.EOF && !(evCount("select") == 1 && evRet[int]("select", 0, 0) == 2) ==> isRetryErr(result1)
+//@   ensures[C01,C19] handle: isRetryErr(result1) ==> closureIs(retryOf(result1), "subscribeImpl$1") && sameSlice(*closureVar[*[]Subscription](retryOf(result1), "subscribeImpl$1", 0), subs)
+//@   ensures[C11] waitset: evCount("select") == 1 ==> evArg[chan struct{}]("select", 0, 0) == c.connClosed &&
+//@        evArg[<-chan struct{}]("select", 0, 1) == evRet[<-chan struct{}]("context.Context.Done", 0, 0) && evArg[context.Context]("context.Context.Done", 0, 0) == ctx
+//@   ensures[C11] no_bare_block: evCount("recv") == 0 && evCount("send") == 0
+//@   ensures[C11,C19] cancel_cause: evCount("select") == 1 && evRet[int]("select", 0, 0) == 1 && isRetryErr(result1) ==>
+//@        evArg[context.Context]("context.Context.Err", 0, 0) == ctx && asError(asRetryErr(result1).errorInterface).Err == evRet[error]("context.Context.Err", 0, 0)
+//@   ensures[C11,C19] closed_cause: evCount("select") == 1 && evRet[int]("select", 0, 0) == 0 ==>
+//@        isRetryErr(result1) && asError(asRetryErr(result1).errorInterface).Err == ErrClosedTransport
+//@   ensures[C19] not_connected: sig0 == nil ==> result1 == ErrNotConnected && evCount("(*BaseClient).write") == 0
+
+//@ func subscribeImpl$1
+//@   mode int
+//@   props C01 C19
+//@   requires cli != nil && ctx != nil && cli.Transport != nil
+//@   assigns cli.idLast
+//@   ensures[C01,C19] redo: evCount("subscribeImpl") == 1 && evArg[*BaseClient]("subscribeImpl", 0, 1) == cli &&
+//@        sameSlice(evArg[[]Subscription]("subscribeImpl", 0, 2), subs) && result == evRet[error]("subscribeImpl", 0, 1)
+
+//@ func unsubscribeImpl
+//@   mode int
+//@   props C01 C07 C11 C15 C19
+//@   requires c != nil && ctx != nil && c.Transport != nil
+//@   assigns c.idLast
+//@   let sig0 *signaller = c.sig
+//@   ensures[C15] one_id: evCount("(*BaseClient).newID") == 1
+//@   ensures[C07,C15] registered: sig0 != nil ==> evCount("mapstore:map<uint16,chan *pktUnsubAck>") == 1 &&
+//@        evArg[uint16]("mapstore:map<uint16,chan *pktUnsubAck>", 0, 1) == evRet[uint16]("(*BaseClient).newID", 0, 0) &&
+//@        fresh(evArg[chan *pktUnsubAck]("mapstore:map<uint16,chan *pktUnsubAck>", 0, 2))
+//@   ensures[C07] order: evCount("(*BaseClient).write") == 1 ==> evIndex("mapstore:map<uint16,chan *pktUnsubAck>", 0) < evIndex("(*BaseClient).write", 0)
+//@   ensures[C07,C11] nil_only_acked: result == nil ==> evCount("select") == 1 && evRet[int]("select", 0, 0) == 2 &&
+//@        evArg[chan *pktUnsubAck]("select", 0, 2) == evArg[chan *pktUnsubAck]("mapstore:map<uint16,chan *pktUnsubAck>", 0, 2) &&
+//@        evIndex("(*BaseClient).write", 0) < evIndex("select", 0)
+//@   ensures[C01,C19] interrupted: sig0 != nil && result != nil && result != io.EOF ==> isRetryErr(result)
+//@   ensures[C01,C19] handle: isRetryErr(result) ==> closureIs(retryOf(result), "unsubscribeImpl$1") && sameSlice(*closureVar[*[]string](retryOf(result), "unsubscribeImpl$1", 0), subs)
+//@   ensures[C11] waitset: evCount("select") == 1 ==> evArg[chan struct{}]("select", 0, 0) == c.connClosed &&
+//@        evArg[<-chan struct{}]("select", 0, 1) == evRet[<-chan struct{}]("context.Context.Done", 0, 0) && evArg[context.Context]("context.Context.Done", 0, 0) == ctx
+//@   ensures[C11] no_bare_block: evCount("recv") == 0 && evCount("send") == 0
+//@   ensures[C11,C19] cancel_cause: evCount("select") == 1 && evRet[int]("select", 0, 0) == 1 && isRetryErr(result) ==>
+//@        evArg[context.Context]("context.Context.Err", 0, 0) == ctx && asError(asRetryErr(result).errorInterface).Err == evRet[error]("context.Context.Err", 0, 0)
+//@   ensures[C11,C19] closed_cause: evCount("select") == 1 && evRet[int]("select", 0, 0) == 0 ==>
+//@        isRetryErr(result) && asError(asRetryErr(result).errorInterface).Err == ErrClosedTransport
+//@   ensures[C19] not_connected: sig0 == nil ==> result == ErrNotConnected && evCount("(*BaseClient).write") == 0
+
+//@ func unsubscribeImpl$1
+//@   mode int
+//@   props C01 C19
+//@   requires cli != nil && ctx != nil && cli.Transport != nil
+//@   assigns cli.idLast
+//@   ensures[C01,C19] redo: evCount("unsubscribeImpl") == 1 && evArg[*BaseClient]("unsubscribeImpl", 0, 1) == cli &&
+//@        sameSlice(evArg[[]string]("unsubscribeImpl", 0, 2), subs) && result == evRet[error]("unsubscribeImpl", 0, 0)
